@@ -60,6 +60,9 @@ func (s *Session) Do(m Msg, dir string) Reply {
 	case "config":
 		s.Client.SetConfig(m.Text)
 		return s.Notify("workspace/didChangeConfiguration", `{"settings":null}`)
+	case "diagnostics":
+		// not a message: the diagnostics published last for the document, as a response
+		return Reply{Result: s.Client.Last(uri)}
 	case "configq":
 		// the answer is bound to this notification's pull (k-th pull, k-th answer)
 		s.Client.QueueConfig(m.Text)
